@@ -9,7 +9,8 @@ GROUPS_C01 = [('get_record.liveness', 'h_get_record', 'listing', 'get_record ser
               ('snapshot.liveness', 'h_snapshot', 'listing', 'snapshot() lists only records whose deadline was checked and found in the future')]
 GROUPS_C04 = [('get_record.wipe_before_forget', 'h_get_record', 'wipe', 'a lookup that notices the expiry forgets a persisted record only after wiping its file'),
               ('sweep.wipe_before_forget', 'h_sweep', 'wipe', 'sweep_expired forgets a persisted record only after wiping its file'),
-              ('put.overwrite', 'h_put', 'wipe', 'overwriting wipes the previous file before the record is replaced')]
+              ('put.overwrite', 'h_put', 'wipe', 'overwriting wipes the previous file before the record is replaced'),
+              ('secure_wipe.always_unlinks', 'h_wipe', 'iofail', 'once secure_wipe_file started an overwrite pass, every return path unlinks the file, also after a failed pass')]
 
 
 def replay(group, trace):
